@@ -219,6 +219,36 @@ class MirCheck:
                     verdict, detail, replay_path = None, f"replay failed: {type(e).__name__}: {e}", None
                 extra["replay"] = replay_path
                 extra["model"] = _trim_model(model)
+                if verdict is not True and q.meta.get("refine") is not None:
+                    # the query used a proved CONTRACT for a callee: its counterexample may pick a callee behaviour the real body never shows.
+                    # Re-decide the same obligation with the callee's real body inlined; only that answer counts.
+                    try:
+                        rf = q.meta["refine"]()
+                        rprefs = []
+                        if isinstance(rf, dict):
+                            rf, rprefs = rf["formulas"], list(rf.get("prefer") or [])
+                        r3 = solve.decide(rf, timeout=max(q.timeout, 900), tag=f"{self.pid}_{q.name}_refined")
+                        if r3["result"] == "sat" and rprefs:
+                            r4 = solve.decide(rf + rprefs, timeout=120, tag=f"{self.pid}_{q.name}_refined_pref")
+                            if r4["result"] == "sat" and r4.get("model"):
+                                r3 = r4
+                    except Exception as e:
+                        r3 = {"result": "unknown", "detail": f"refinement failed: {type(e).__name__}: {e}", "time_s": 0.0}
+                    extra["refined"] = {"result": r3["result"], "solver": r3.get("solver"), "time_s": round(r3.get("time_s", 0.0), 1)}
+                    if r3["result"] == "unsat":
+                        self.out.add(q.name, "discharged", "contract-level counterexample refuted on the callee's real body (precise encoding unsat)", r["time_s"] + r3["time_s"],
+                                     f"mirsym+{r3.get('solver')}", extra)
+                        continue
+                    if r3["result"] == "sat" and r3.get("model"):
+                        try:
+                            verdict, detail, replay_path = q.on_sat(q, r3["model"])
+                        except Exception as e:
+                            verdict, detail, replay_path = None, f"replay failed: {type(e).__name__}: {e}", None
+                        extra["replay"] = replay_path
+                        extra["model"] = _trim_model(r3["model"])
+                        detail = "(after refinement on the real body) " + str(detail)
+                    else:
+                        verdict, detail = None, "contract-level counterexample did not reproduce and the precise encoding gave no answer: " + str(r3.get("detail", ""))[:200]
                 if verdict is True:
                     self.out.add(q.name, "violated", "reproduced natively: " + detail, r["time_s"], eng_name, extra)
                 elif verdict is False:
